@@ -8,7 +8,7 @@ from propbase import AXIOM_ALLOWLIST, KERNEL, HARNESS  # noqa: F401
 _HERE = os.path.dirname(os.path.abspath(__file__))
 
 # commits in /repo that add the guarded hooks (cargo feature verif-hooks)
-HOOK_COMMITS = ["cf22d3e","6766a98","e05a067","16c382e","e270c08","235341b","ac36492","e794f5f"]
+HOOK_COMMITS = ["cf22d3e","6766a98","e05a067","16c382e","e270c08","235341b","ac36492","e794f5f","3be000a"]
 # property id -> reason, for properties the technique genuinely cannot decide
 NOT_APPLICABLE = {}
 
